@@ -60,6 +60,9 @@ func randomCfg(prop string, f *evid.Flags, idx int) (*dCfg, *rng.R) {
 	case "C11":
 		c.CloseEarly = r.Chance(1, 2)
 		c.Paced = r.Chance(1, 5)
+		// two goroutines call Close at once (regular shutdown and a Fatal, say): whichever call returns first, the
+		// backlog has been delivered or reported by then
+		c.CloseTwice = []int{0, 0, 0, 2}[r.Intn(4)]
 	case "C12":
 		c.Paced = r.Chance(1, 6)
 		c.LateWrites = r.Chance(1, 10)
@@ -71,6 +74,10 @@ func randomCfg(prop string, f *evid.Flags, idx int) (*dCfg, *rng.R) {
 	c.Procs = []int{0, 0, 0, 0, 1, 2}[r.Intn(6)]
 	if idx%8 == 5 {
 		c.EmptyAt = 1 + (idx/8)%c.W // one zero-length message somewhere in producer 0's sequence
+	}
+	if idx%16 == 9 {
+		c.W = 0 // nothing is ever written: Close must return all the same
+		c.Paced, c.LateWrites = false, false
 	}
 	if isRace() && prop != "C12" && idx%2 == 1 {
 		c.Hookless = true
@@ -775,6 +782,9 @@ func diodeCheck(prop string, args []string) int {
 		out.Count("noisy_runs", 1)
 		if cfg.EmptyAt != 0 {
 			out.Count("runs_with_zero_length_message", 1)
+		}
+		if cfg.W == 0 {
+			out.Count("runs_without_any_write", 1)
 		}
 	}
 	// 2a. (thorough) pairs of directed pauses: the k1-th arrival at p1 and the k2-th arrival at p2 each wait
